@@ -1068,3 +1068,33 @@ pub fn sample_strategy<S: Strategy>(s: &S, seed: u64) -> S::Value {
     });
     s.new_tree(&mut r).unwrap().current()
 }
+
+
+/// A `Read + Seek` over a byte slice that hands out at most `pattern[i % len]` bytes per `read` call, as a `BufReader` at a
+/// buffer boundary, a socket or a pipe does. The public `BinRead` types must decode the same from it as from a `Cursor`.
+pub struct Trickle<'a> {
+    pub inner: std::io::Cursor<&'a [u8]>,
+    pub pattern: &'a [usize],
+    pub calls: usize,
+}
+
+impl<'a> Trickle<'a> {
+    pub fn new(bytes: &'a [u8], pattern: &'a [usize]) -> Self {
+        Trickle { inner: std::io::Cursor::new(bytes), pattern, calls: 0 }
+    }
+}
+
+impl std::io::Read for Trickle<'_> {
+    fn read(&mut self, buf: &mut [u8]) -> std::io::Result<usize> {
+        let k = self.pattern[self.calls % self.pattern.len()].max(1);
+        self.calls += 1;
+        let n = buf.len().min(k);
+        self.inner.read(&mut buf[..n])
+    }
+}
+
+impl std::io::Seek for Trickle<'_> {
+    fn seek(&mut self, pos: std::io::SeekFrom) -> std::io::Result<u64> {
+        self.inner.seek(pos)
+    }
+}
